@@ -9,17 +9,24 @@ from .. import canon
 from ..core import call_real
 
 ID = "C12"
-LEAN_MODULE = "CKT.Props.C12"
+LEAN_MODULE = "CKT.Props.C12Sem"
 THEOREMS = [
     "CKT.C12.removeInitial_only", "CKT.C12.removeFinal_only", "CKT.C12.consolidate_only",
     "CKT.C12.passRemoveFinalReset_only", "CKT.C12.passConsolidateResets_only",
     "CKT.C12.removeInitial_wire", "CKT.C12.removeFinal_wire", "CKT.C12.consolidate_wire", "CKT.C12.WF_of_only",
+    # semantic half, for every semantics obeying the four reset laws (C12Sem)
+    "CKT.C12Sem.removeInitial_run", "CKT.C12Sem.consolidate_run", "CKT.C12Sem.removeFinal_obs", "CKT.C12Sem.optimizeResets_obs",
+    "CKT.C12Sem.each_pass_obs", "CKT.C12Sem.classical",
 ]
 RULE = ("dynamic circuits over {reset,h,x,sx,cx (both directions),measure,barrier} on 1-4 qubits / 0-4 clbits with up to 16 instructions; "
         "thorough additionally enumerates every program of length <=5 on 2 qubits / 1 clbit (exhaustive); every circuit is pushed through the three "
         "list scans, their composition and the two transpiler passes; non-trivial = contains a reset; distinct by program")
 ASSUMPTIONS = ["Qiskit's circuit<->DAG conversion may re-linearise instructions on disjoint wires: the transpiler passes are compared per wire",
-               "reference semantics for the failing-input search: density-matrix branch simulator (harness/oracles/refsim.py)"]
+               "reference semantics for the failing-input search: density-matrix branch simulator (harness/oracles/refsim.py)",
+               "T12.3 (`optimizeResets_obs`, `each_pass_obs`) is proved for every semantics obeying the four laws of `C12Sem.ResetSem` (a reset commutes "
+               "with instructions on other qubits, is idempotent, fixes the initial state, and is invisible to the classical-register statistics); that "
+               "Qiskit's semantics obeys them is standard and not proved in Lean (simulated on every case); the two transpiler passes are validated "
+               "by simulation only"]
 PASSES = ["initial", "final", "consolidate", "optimize", "dag_final", "dag_consolidate"]
 
 
